@@ -96,27 +96,31 @@ fn grown(declared: usize, actual: usize) -> Option<String> {
     if !correct.starts_with(&w.out) { return Some(format!("{desc} expected=prefix-of-the-one-serialisation ({} bytes) actual={} bytes, not a prefix", correct.len(), w.out.len())); }
     None
 }
-/// a body of unknown length whose source fails midway (an event that does not fit the read window): what went out is a
-/// prefix of the serialisation of what the source delivered -- in particular no terminating chunk, which would make the
-/// truncated stream look complete
+/// a body of unknown length whose source fails midway: what went out is a prefix of the serialisation of what the source
+/// delivered -- in particular no terminating chunk, which would make the truncated stream look complete.  (Until the repair
+/// f72b510 an event larger than the read window was such a failure; an event stream can no longer fail, so the failing source
+/// is a scripted reader handed to the real copy_chunked_async, with short writes on the other side.)
 fn streamfail(before: usize) -> Option<String> {
-    let desc = format!("streamfail events_before={before}");
-    let (mut sender, resp) = Response::event_stream();
-    let mut want = b"HTTP/1.1 200 OK\r\ncontent-type: text/event-stream\r\ntransfer-encoding: chunked\r\n\r\n".to_vec();
-    for i in 0..before {
-        let ev = servlin::Event::Message(format!("e{i}"));
-        let mut block = Vec::new(); ev.push_to(&mut block);
-        want.extend(format!("{:x}\r\n", block.len()).bytes()); want.extend(&block); want.extend(b"\r\n");
-        sender.send(ev);
+    use servlin::internal::{copy_chunked_async, CopyResult};
+    use verif_replay::{ScriptReader, Step};
+    for cap in [usize::MAX, 1, 3] {
+        let desc = format!("streamfail events_before={before} write_cap={cap}");
+        let mut steps = Vec::new();
+        let mut want = Vec::new();
+        for i in 0..before {
+            let block = format!("data: e{i}\n").into_bytes();
+            want.extend(format!("{:x}\r\n", block.len()).bytes()); want.extend(&block); want.extend(b"\r\n");
+            steps.push(Step::Data(block));
+        }
+        steps.push(Step::Fail);
+        let mut rd = ScriptReader::new(steps);
+        let mut w = RecWriter::new();
+        w.max_per_call = cap;
+        let r = std::panic::catch_unwind(std::panic::AssertUnwindSafe(|| block_on(copy_chunked_async(&mut rd, &mut w))));
+        let r = match r { Ok(r) => r, Err(_) => return Some(format!("{desc} expected=terminates-without-panic actual=panic")) };
+        if !matches!(r, CopyResult::ReaderErr(_)) { return Some(format!("{desc} expected=ReaderErr (the source failed) actual={}", match r { CopyResult::Ok(n) => format!("Ok({n})"), CopyResult::WriterErr(_) => "WriterErr".into(), CopyResult::ReaderErr(_) => "ReaderErr".into() })); }
+        if w.out != want { return Some(format!("{desc} expected=exactly the {before} chunks delivered before the failure ({} bytes) actual={} bytes ending {:?}", want.len(), w.out.len(), String::from_utf8_lossy(&w.out[w.out.len().saturating_sub(12)..]))); }
     }
-    sender.send(servlin::Event::Message("x".repeat(70000)));
-    sender.send(servlin::Event::Message("after".to_string()));
-    drop(sender);
-    let mut w = RecWriter::new();
-    let r = std::panic::catch_unwind(std::panic::AssertUnwindSafe(|| block_on(write_http_response(&mut w, &resp, false))));
-    let r = match r { Ok(r) => r, Err(_) => return Some(format!("{desc} expected=terminates-without-panic actual=panic")) };
-    if r.is_ok() { return Some(format!("{desc} expected=Err (the source failed) actual=Ok")); }
-    if w.out != want { return Some(format!("{desc} expected=exactly the head and the {before} chunks delivered before the failure ({} bytes) actual={} bytes ending {:?}", want.len(), w.out.len(), String::from_utf8_lossy(&w.out[w.out.len().saturating_sub(12)..]))); }
     None
 }
 fn main() {
